@@ -154,6 +154,9 @@ Props/C12.vos Props/C12.vok Props/C12.required_vos: Props/C12.v Engine/RecEngine
 Props/C13.vo Props/C13.glob Props/C13.v.beautified Props/C13.required_vo: Props/C13.v Logic/Perm.vo
 Props/C13.vio: Props/C13.v Logic/Perm.vio
 Props/C13.vos Props/C13.vok Props/C13.required_vos: Props/C13.v Logic/Perm.vos
+Props/C14.vo Props/C14.glob Props/C14.v.beautified Props/C14.required_vo: Props/C14.v Ir/Syntax.vo Infer/Table.vo Infer/Unify.vo Infer/Sound.vo Infer/Complete.vo
+Props/C14.vio: Props/C14.v Ir/Syntax.vio Infer/Table.vio Infer/Unify.vio Infer/Sound.vio Infer/Complete.vio
+Props/C14.vos Props/C14.vok Props/C14.required_vos: Props/C14.v Ir/Syntax.vos Infer/Table.vos Infer/Unify.vos Infer/Sound.vos Infer/Complete.vos
 Props/C15.vo Props/C15.glob Props/C15.v.beautified Props/C15.required_vo: Props/C15.v Ir/Syntax.vo Infer/Table.vo Infer/Unify.vo Infer/Sym.vo
 Props/C15.vio: Props/C15.v Ir/Syntax.vio Infer/Table.vio Infer/Unify.vio Infer/Sym.vio
 Props/C15.vos Props/C15.vok Props/C15.required_vos: Props/C15.v Ir/Syntax.vos Infer/Table.vos Infer/Unify.vos Infer/Sym.vos
